@@ -32,6 +32,7 @@ import uuid
 from pathlib import Path
 from typing import Any, Dict, List, Optional
 
+import gentie
 import reclib
 import vlib
 
@@ -412,6 +413,9 @@ def run(ctx: vlib.Ctx):
         "IH5MFRecord checks the sidecar manifest of the newest container only (the manifests of older containers are not part of the opened set)",
     ]
     proof_report(ctx, proof)
+    # generated tie: IH5Record._check_ublock / IH5MFRecord._check_ublock are re-translated from the current
+    # source and proved equal to Chain.v `check_ub` (coq/Gen/Equiv_chain.v)
+    gentie.report(ctx)
 
 
 def proof_report(ctx, proof):
